@@ -326,4 +326,26 @@ PROPS = {
         "assumptions": ["unsigned RSL commits; local file-path remotes; no policy in the log (the propagation workflow inside Sync is a no-op); branch references only",
                         "the gittuf:: transport prefix and a stale remote tracker reference are not generated"],
     },
+    "C12": {
+        "test": "TestC12",
+        "lean_modules": ["Gittuf.Props.C12"],
+        "n": {"quick": 30, "thorough": 600},
+        "min_per_shard": 8,
+        "rule": "random sequences of 4-12 operations on a real repository, 60% on the internal/policy layer (State.Commit of full policy states obtained from "
+                "the previous one by valid bumps, root rotations signed by old / new / both keys, forged or unsigned roots and rule files, version rollbacks, "
+                "added / dangling / dropped rule files, earlier states staged again, with or without log entry; policy.Apply; policy.Discard; SetReference / "
+                "DeleteReference on either reference without log entry; recording either reference with and without duplicate check; pushes to an unprotected "
+                "probe branch) and 40% through experimental/gittuf (InitializeRoot, Add/RemoveRootKey, UpdateRootThreshold, Add/RemoveTopLevelTargetsKey, "
+                "UpdateTopLevelTargetsThreshold, Add/RemoveGlobalRule, SignRoot, InitializeTargets, AddPrincipalToTargets, AddDelegation, RemoveDelegation, SignTargets, "
+                "StagePolicy, ApplyPolicy, DiscardPolicy by signers inside and outside the root / rule-file roles, ssh-keygen backed signers); scripted sequences "
+                "(two-step rotation applied at once and step by step, outsiders, tampered references, discard, fast-forward and rebase by ReconcileStaging) are replayed "
+                "from corpus/C12. After every operation: both references, the whole RSL (read with git rev-parse / cat-file, not gittuf), every new policy commit "
+                "(parent, decoded metadata) and the error class are compared with the Lean model; around every Apply the real LoadCurrentState(policy) and VerifyRefFull "
+                "of the probe branch are run and compared. ApplyOK / ApplyRefuses / PolicyUntouched / DiscardRestores / RootEditRefused / PublishedVerifies are evaluated on the "
+                "states observed on the real repository. non-trivial = at least one successful Apply; distinct by input hash.",
+        "trusted_base": COMMON_TB + ["policy commit ids are a function of (parent, tree, message) on the test repositories' fixed clock; the API object is built around a test repository by reflection"],
+        "assumptions": ["single writer, no injected faults (C16), no remote synchronisation (localOnly), no controller repositories; only the primary rule file is edited through the API; "
+                        "hooks, propagation directives and GitHub apps are not edited",
+                        "PublishedVerifies is judged relative to the log having been verifiable before the Apply (a log already broken by direct tampering with recording is not Apply's to repair)"],
+    },
 }
